@@ -1190,3 +1190,183 @@ Section NInv.
     induction 1 as [|s l s' Hr IH Hstep]; [apply NInv_init|]. eapply NInv_step; eassumption.
   Qed.
 End NInv.
+
+(* ------------------------------------------------------------------ *)
+(** * Commit points and commit indexes *)
+
+Lemma label_eq_dec (a b : label) : {a = b} + {a <> b}.
+Proof. decide equality; apply N.eq_dec. Qed.
+
+Lemma llabel_eq_dec (a b : llabel) : {a = b} + {a <> b}.
+Proof. decide equality; try apply N.eq_dec; try apply Nat.eq_dec; apply label_eq_dec. Qed.
+
+Section KInv.
+  Variables (inc out : list N).
+  Hypothesis inc_nonempty : inc <> [].
+  Hypothesis Hmulti : no_single_quorum inc out.
+  Notation lrule := (lrule inc out).
+  Notation lreachable := (lreachable inc out).
+  Notation Block := (Block inc out).
+
+  Lemma acked_mono s l s' q T : lrule l s = Some s' -> (acked s q T <= acked s' q T)%nat.
+  Proof.
+    intros H. destruct l as [l0|c x|n m|q0 i|q0 t i|c k0|n k0|n|n].
+    - destruct (lel_inv _ _ _ _ _ H) as (e' & He & Hel & Hs).
+      destruct l0 as [n|n|n|n t0|n c t0|n t0|n t0|c n|c|n t0|n|n|n]; try (subst s'; cbn; lia);
+        [destruct Hs as [-> _]|destruct Hs as [_ ->]]; cbn; lia.
+    - apply lpropose_inv in H. destruct H as (_ & ->). cbn. lia.
+    - apply ladopt_inv in H. cbv zeta in H. destruct H as (_ & _ & _ & _ & _ & _ & ->). cbn. lia.
+    - apply lmkack_inv in H. cbv zeta in H. destruct H as (_ & _ & _ & _ & ->). cbn. lia.
+    - apply lrelack_inv in H. destruct H as (_ & _ & _ & ->).
+      destruct (acked s q0 t <? i)%nat eqn:E; [|lia]. apply Nat.ltb_lt in E. cbn.
+      destruct ((q =? q0) && (T =? t)) eqn:E2; [|lia].
+      apply andb_prop in E2. destruct E2 as [E1 E2]. apply N.eqb_eq in E1, E2. subst. lia.
+    - apply lcommitl_inv in H. cbv zeta in H. destruct H as (_ & _ & _ & _ & _ & ->).
+      destruct (is_prefix _ _ && (acked s c (p_term (nodes (el s) c)) <? k0)%nat) eqn:E; [|cbn; lia].
+      apply andb_prop in E. destruct E as [_ E]. apply Nat.ltb_lt in E. cbn.
+      destruct ((q =? c) && (T =? p_term (nodes (el s) c))) eqn:E2; [|lia].
+      apply andb_prop in E2. destruct E2 as [E1 E2]. apply N.eqb_eq in E1, E2. subst. lia.
+    - apply lcommitf_inv in H. destruct H as (_ & _ & _ & _ & ->). cbn. lia.
+    - apply llogimage_inv in H. destruct H as (_ & ->). cbn. lia.
+    - apply llogfsync_inv in H. destruct H as (img & rest & _ & _ & _ & ->). cbn. lia.
+  Qed.
+
+  (* commit points are never removed; a new one comes from a leader commit *)
+  Lemma cpts_step s l s' T k : lrule l s = Some s' -> In (T, k) (cpts s') ->
+    In (T, k) (cpts s) \/ exists c, l = LCommitL c k /\ T = p_term (nodes (el s) c).
+  Proof.
+    intros H Hin. destruct l as [l0|c x|n m|q0 i|q0 t i|c k0|n k0|n|n].
+    - destruct (lel_inv _ _ _ _ _ H) as (e' & He & Hel & Hs).
+      destruct l0 as [n|n|n|n t0|n c t0|n t0|n t0|c n|c|n t0|n|n|n]; try (subst s'; left; exact Hin);
+        [destruct Hs as [-> _]|destruct Hs as [_ ->]]; left; exact Hin.
+    - apply lpropose_inv in H. destruct H as (_ & ->). left. exact Hin.
+    - apply ladopt_inv in H. cbv zeta in H. destruct H as (_ & _ & _ & _ & _ & _ & ->). left. exact Hin.
+    - apply lmkack_inv in H. cbv zeta in H. destruct H as (_ & _ & _ & _ & ->). left. exact Hin.
+    - apply lrelack_inv in H. destruct H as (_ & _ & _ & ->).
+      destruct (acked s q0 t <? i)%nat; left; exact Hin.
+    - apply lcommitl_inv in H. cbv zeta in H. destruct H as (_ & _ & _ & _ & _ & ->).
+      cbn [add_cpt cpts] in Hin. destruct Hin as [Hin|Hin].
+      + inversion Hin; subst. right. exists c. auto.
+      + left. destruct (is_prefix _ _ && _)%bool; exact Hin.
+    - apply lcommitf_inv in H. destruct H as (_ & _ & _ & _ & ->). left. exact Hin.
+    - apply llogimage_inv in H. destruct H as (_ & ->). left. exact Hin.
+    - apply llogfsync_inv in H. destruct H as (img & rest & _ & _ & _ & ->). left. exact Hin.
+  Qed.
+
+  Lemma cpts_mono s l s' T k : lrule l s = Some s' -> In (T, k) (cpts s) -> In (T, k) (cpts s').
+  Proof.
+    intros H Hin. destruct l as [l0|c x|n m|q0 i|q0 t i|c k0|n k0|n|n].
+    - destruct (lel_inv _ _ _ _ _ H) as (e' & He & Hel & Hs).
+      destruct l0 as [n|n|n|n t0|n c t0|n t0|n t0|c n|c|n t0|n|n|n]; try (subst s'; exact Hin);
+        [destruct Hs as [-> _]|destruct Hs as [_ ->]]; exact Hin.
+    - apply lpropose_inv in H. destruct H as (_ & ->). exact Hin.
+    - apply ladopt_inv in H. cbv zeta in H. destruct H as (_ & _ & _ & _ & _ & _ & ->). exact Hin.
+    - apply lmkack_inv in H. cbv zeta in H. destruct H as (_ & _ & _ & _ & ->). exact Hin.
+    - apply lrelack_inv in H. destruct H as (_ & _ & _ & ->).
+      destruct (acked s q0 t <? i)%nat; exact Hin.
+    - apply lcommitl_inv in H. cbv zeta in H. destruct H as (_ & _ & _ & _ & _ & ->).
+      cbn [add_cpt cpts]. right. destruct (is_prefix _ _ && _)%bool; exact Hin.
+    - apply lcommitf_inv in H. destruct H as (_ & _ & _ & _ & ->). exact Hin.
+    - apply llogimage_inv in H. destruct H as (_ & ->). exact Hin.
+    - apply llogfsync_inv in H. destruct H as (img & rest & _ & _ & _ & ->). exact Hin.
+  Qed.
+  (* which steps change a node's commit index *)
+  Lemma commit_changes s l s' n : lrule l s = Some s' ->
+    l_commit (ln s' n) = l_commit (ln s n) \/ l = LEl (LCrash n) \/
+    (exists k, l = LCommitL n k /\ l_commit (ln s' n) = k) \/
+    (exists k, l = LCommitF n k /\ l_commit (ln s' n) = k).
+  Proof.
+    intros H. destruct l as [l0|c x|n0 m|q0 i|q0 t i|c k0|n0 k0|n0|n0].
+    - destruct (lel_inv _ _ _ _ _ H) as (e' & He & Hel & Hs).
+      destruct l0 as [n0|n0|n0|n0 t0|n0 c t0|n0 t0|n0 t0|c n0|c|n0 t0|n0|n0|n0]; try (subst s'; left; reflexivity).
+      + destruct Hs as [-> _]. left. reflexivity.
+      + destruct Hs as [_ ->]. left. cbn. destruct (N.eqb_spec n c) as [->|]; reflexivity.
+      + subst s'. cbn. destruct (N.eqb_spec n n0) as [->|]; [right; left; reflexivity|left; reflexivity].
+    - apply lpropose_inv in H. destruct H as (_ & ->). left. cbn. destruct (N.eqb_spec n c) as [->|]; reflexivity.
+    - apply ladopt_inv in H. cbv zeta in H. destruct H as (_ & _ & _ & _ & _ & _ & ->). left. cbn.
+      destruct (N.eqb_spec n n0) as [->|]; reflexivity.
+    - apply lmkack_inv in H. cbv zeta in H. destruct H as (_ & _ & _ & _ & ->). left. cbn.
+      destruct (N.eqb_spec n q0) as [->|]; reflexivity.
+    - apply lrelack_inv in H. destruct H as (_ & _ & _ & ->). left. destruct (acked s q0 t <? i)%nat; reflexivity.
+    - apply lcommitl_inv in H. cbv zeta in H. destruct H as (_ & _ & _ & _ & _ & ->).
+      destruct (N.eqb_spec n c) as [->|Hne].
+      + right. right. left. exists k0. split; [reflexivity|].
+        destruct (is_prefix _ _ && _)%bool; cbn; rewrite N.eqb_refl; reflexivity.
+      + left. apply N.eqb_neq in Hne. destruct (is_prefix _ _ && _)%bool; cbn; rewrite Hne; reflexivity.
+    - apply lcommitf_inv in H. destruct H as (_ & _ & _ & _ & ->). cbn.
+      destruct (N.eqb_spec n n0) as [->|]; [|left; reflexivity]. right. right. right. exists k0. auto.
+    - apply llogimage_inv in H. destruct H as (_ & ->). left. cbn. destruct (N.eqb_spec n n0) as [->|]; reflexivity.
+    - apply llogfsync_inv in H. destruct H as (img & rest & _ & _ & _ & ->). left. cbn.
+      destruct (N.eqb_spec n n0) as [->|]; reflexivity.
+  Qed.
+
+  Record KInv (s : lst) : Prop := {
+    (* a commit point is an own-term index of its leader log acknowledged by a quorum *)
+    k_cpt : forall T k, In (T, k) (cpts s) ->
+        own (llog s) T k /\ exists Q, quorum inc out Q = true /\ forall z, In z Q -> (k <= acked s z T)%nat;
+    (* a commit index is covered by a commit point the log agrees with *)
+    k_commit : forall n, (0 < l_commit (ln s n))%nat ->
+        exists T k, In (T, k) (cpts s) /\ (l_commit (ln s n) <= k)%nat /\
+          firstn (l_commit (ln s n)) (l_log (ln s n)) = firstn (l_commit (ln s n)) (llog s T)
+  }.
+
+  Lemma KInv_init : KInv linit.
+  Proof. constructor; cbn; intros; [contradiction|lia]. Qed.
+
+  Theorem KInv_step s l s' : lreachable s -> KInv s -> lrule l s = Some s' -> KInv s'.
+  Proof.
+    intros Hr HK H.
+    pose proof (lreachable_LInv inc out inc_nonempty Hmulti s Hr) as HL.
+    pose proof (llog_grows inc out inc_nonempty Hmulti s l s' Hr HL H) as Hgr.
+    constructor.
+    - intros T k Hin. destruct (cpts_step _ _ _ _ _ H Hin) as [Hold|(c & -> & ->)].
+      + destruct (k_cpt s HK T k Hold) as (Ho & Q & HQ & HQa). split; [eapply own_grows; eassumption|].
+        exists Q. split; [exact HQ|]. intros z Hz. pose proof (HQa z Hz). pose proof (acked_mono s l s' z T H). lia.
+      + pose proof H as H0. apply lcommitl_inv in H0. cbv zeta in H0.
+        destruct H0 as (Hl & Hk & Hc & Ht & Hq & Es').
+        assert (Ell : llog s' = llog s) by (rewrite Es'; destruct (is_prefix _ _ && _)%bool; reflexivity).
+        rewrite Ell. split.
+        * unfold own. rewrite <- (li_B s HL c Hl). split; [lia|exact Ht].
+        * exists (supporters inc out s c k). split; [exact Hq|]. intros z Hz.
+          unfold supporters in Hz. apply filter_In in Hz. destruct Hz as [_ Hz].
+          destruct (N.eq_dec z c) as [Ezc|Hne].
+          -- subst z. rewrite N.eqb_refl in Hz. rewrite Es'. rewrite Hz. cbn [andb].
+             destruct (acked s c (p_term (nodes (el s) c)) <? k)%nat eqn:E; cbn.
+             ++ rewrite !N.eqb_refl. cbn. lia.
+             ++ apply Nat.ltb_ge in E. exact E.
+          -- apply N.eqb_neq in Hne. rewrite Hne in Hz.
+             apply Nat.leb_le in Hz. pose proof (acked_mono s _ s' z (p_term (nodes (el s) c)) H). lia.
+    - intros n Hpos.
+      assert (Hkeep : l <> LEl (LCrash n) -> l_commit (ln s' n) = l_commit (ln s n) ->
+                exists T k, In (T, k) (cpts s') /\ (l_commit (ln s' n) <= k)%nat /\
+                  firstn (l_commit (ln s' n)) (l_log (ln s' n)) = firstn (l_commit (ln s' n)) (llog s' T)).
+      { intros Hnc Ec. rewrite Ec in *. destruct (k_commit s HK n Hpos) as (T & k & Hin & Hk & Ef).
+        exists T, k. split; [eapply cpts_mono; eassumption|]. split; [exact Hk|].
+        destruct (commit_prefix_immutable inc out inc_nonempty Hmulti s l s' n Hr H Hnc) as [_ Ep].
+        rewrite Ep, Ef. destruct (k_cpt s HK T k Hin) as ([[_ Hlen] _] & _).
+        destruct (Hgr T) as [suf ->]. rewrite firstn_app_le by lia. reflexivity. }
+      destruct (commit_changes s l s' n H) as [Ec|[->|[(k0 & -> & Ek)|(k0 & -> & Ek)]]].
+      + destruct (llabel_eq_dec l (LEl (LCrash n))) as [->|Hnc]; [|apply Hkeep; assumption].
+        exfalso. destruct (crash_falls_back inc out s n s' H) as (E0 & _). lia.
+      + exfalso. destruct (crash_falls_back inc out s n s' H) as (E0 & _). lia.
+      + pose proof H as H0. apply lcommitl_inv in H0. cbv zeta in H0.
+        destruct H0 as (Hl & Hk & Hc & Ht & Hq & Es').
+        assert (Ell : llog s' = llog s) by (rewrite Es'; destruct (is_prefix _ _ && _)%bool; reflexivity).
+        assert (Elog : l_log (ln s' n) = l_log (ln s n)).
+        { rewrite Es'. destruct (is_prefix _ _ && _)%bool; cbn; rewrite N.eqb_refl; reflexivity. }
+        exists (p_term (nodes (el s) n)), k0. rewrite Ek, Ell, Elog.
+        split; [rewrite Es'; left; reflexivity|]. split; [lia|]. rewrite (li_B s HL n Hl). reflexivity.
+      + pose proof H as H0. apply lcommitf_inv in H0.
+        destruct H0 as (_ & Hk & Hc & (T & k1 & Hin & Hk1 & suf & Hsuf) & Es').
+        assert (Ell : llog s' = llog s) by (rewrite Es'; reflexivity).
+        assert (Elog : l_log (ln s' n) = l_log (ln s n)) by (rewrite Es'; cbn; rewrite N.eqb_refl; reflexivity).
+        exists T, k1. rewrite Ek, Ell, Elog. split; [rewrite Es'; exact Hin|]. split; [exact Hk1|].
+        rewrite Hsuf. rewrite firstn_app_le by (rewrite firstn_length; lia).
+        rewrite firstn_firstn_le by lia. reflexivity.
+  Qed.
+
+  Theorem lreachable_KInv s : lreachable s -> KInv s.
+  Proof.
+    induction 1 as [|s l s' Hr IH Hstep]; [apply KInv_init|]. eapply KInv_step; eassumption.
+  Qed.
+End KInv.
